@@ -337,7 +337,6 @@ func (p *Proxy) handleCONNECT(r responder.Responder, proxyReq *http.Request) err
 	// Create a buffered reader for the client connection. This is required to
 	// use http package functions with this connection.
 	connReader := bufio.NewReader(tlsConn)
-	responder := responder.NewRawHTTPResponder(tlsConn)
 
 	slog.Debug("Entering request loop for CONNECT tunnel", "host", proxyReq.Host)
 	for {
@@ -353,7 +352,10 @@ func (p *Proxy) handleCONNECT(r responder.Responder, proxyReq *http.Request) err
 		}
 
 		req.Close = true
-		if err := p.handleHTTP(responder, req); err != nil {
+		// A fresh responder for every exchange: it accumulates the header set, length and status of
+		// the response it builds, and none of that may carry over to the next exchange on the tunnel.
+		tunnelResponder := responder.NewRawHTTPResponder(tlsConn)
+		if err := p.handleHTTP(tunnelResponder, req); err != nil {
 			slog.Error("Error processing HTTP request in CONNECT tunnel", "host", proxyReq.Host, "error", err)
 			if errors.Is(err, ErrResponseAborted) {
 				// A response was cut short mid-body: the tunnel is no longer in a state where
